@@ -37,19 +37,26 @@ def model(ck):
     ck.note("Net.tla: %s" % ", ".join("%s %d states" % (c, r.distinct) for c, r in res.items()))
 
 
-def selftest(ck, trace_path):
+def selftest(ck, trace_path=None):
     """Negative controls of the binding (R6): a recorded trace with one field corrupted, one delivery repeated,
     one delivery removed and one delivery redirected must each raise the matching rule."""
-    recs = tracepar.read_ndjson(trace_path)
-    # first must-deliver network of the chunk
-    start = next((i for i, r in enumerate(recs) if r["e"] == "net" and r["must"]), None)
-    if start is None:
-        return
-    end = next((i for i in range(start + 1, len(recs)) if recs[i]["e"] == "net"), len(recs))
-    net = recs[start:end]
+    # a small hand-made run (independent of the tree under test): two devices, six messages, all delivered
+    ports = ["A.Port0", "B.Port0"]
+    net = [{"e": "net", "id": 0, "kind": "mesh", "class": "mesh", "shape": "mesh2d", "ports": ports, "must": True}]
+    msgs = []
+    for k in range(6):
+        src, dst = ports[k % 2], ports[(k + 1) % 2]
+        msgs.append({"id": 10 + k, "src": src, "dst": dst, "rspto": k % 3, "class": "c%d" % (k % 2), "bytes": 16 * k})
+    for m in msgs[:3]:
+        net.append({"e": "send", "p": m["src"], "m": dict(m), "t": "1000"})
+    for m in msgs[:2]:
+        net.append({"e": "recv", "p": m["dst"], "m": dict(m), "t": "5000"})
+    for m in msgs[3:]:
+        net.append({"e": "send", "p": m["src"], "m": dict(m), "t": "6000"})
+    for m in msgs[2:]:
+        net.append({"e": "recv", "p": m["dst"], "m": dict(m), "t": "9000"})
+    net.append({"e": "quiesce", "t": "9000", "quiescent": True, "unsent": 0, "held": 0, "drained": True})
     idx = [i for i, r in enumerate(net) if r["e"] == "recv"]
-    if len(idx) < 4 or len(net[0]["ports"]) < 2:
-        return
     d = core.scratch("c29self-")
     want = {}
     combined = []
@@ -68,6 +75,7 @@ def selftest(ck, trace_path):
         r = v[idx[3]]
         r["p"] = next(p for p in v[0]["ports"] if p != r["p"])
     variant(4, redirect, "foreign_delivery")
+    variant(5, lambda v: None, None)   # the sound run itself: nothing may be reported
     p = os.path.join(d, "controls.ndjson")
     tracepar.write_ndjson(p, combined)
     v = tracepar.validate_many(ck, ["noc", "common"], "NetTrace", "NetTrace.cfg", [p], parallel=1, timeout=600)[0]
@@ -75,9 +83,13 @@ def selftest(ck, trace_path):
     for c in v.cases:
         got.setdefault(c["net"], set()).add(c["class"])
     for nid, cls in want.items():
+        if cls is None:
+            if got.get(nid):
+                raise core.Broken("negative controls: the sound hand-made run raises %s" % sorted(got[nid]))
+            continue
         if cls not in got.get(nid, set()):
             raise core.Broken("negative control %s: NetTrace did not raise it (raised %s, accepted=%s)" % (cls, sorted(got.get(nid, set())), v.accepted))
-    ck.cov["negative_controls"] = sorted(set(want.values()))
+    ck.cov["negative_controls"] = sorted(x for x in set(want.values()) if x)
 
 
 def run(ck):
